@@ -47,3 +47,10 @@ GROUPS += [
           flags=["--no-malloc-may-fail"], must_fail=["reach_end", "reach_old_basis_with_row_norms"], functions=["QSload_basis_and_row_norms_array", "QSload_basis_array", "check_basis_arrays", "ILLlp_basis_free"],
           props=["C18", "C12", "C17"], assumed=["life/load_norms: GMP model variant TOKENS"]),
 ]
+
+GROUPS += [
+    Group("life/create_free", "qs_create_free.c", tus=["qsopt_mpq.c", "lpdata_mpq.c", "dstruct_mpq.c", "reporter.c", "symtab.c", "allocrus.c"], model=MODEL, defines=TOK, dfcc=False, unwind=8, kind="bounded", leak=True, timeout=900,
+          bound="problem name absent or 2 characters; every allocation may fail (CBMC default); loops completely unwound",
+          must_fail=["reach_end", "reach_creation_failed"], functions=["QScreate_prob", "QSfree_prob", "ILLlpdata_init", "ILLlpdata_free"],
+          props=["C18", "C17"], assumed=["life/create_free: ILLsimplex_init/free/load_lpinfo and ILLprice_init/free_pricing_info are stubs that own nothing; GMP model variant TOKENS"]),
+]
